@@ -4,8 +4,6 @@
 
 package parser
 
-// FIXME need to implement formfeed
-
 // Lexer should count line numbers too!
 
 import (
@@ -163,6 +161,9 @@ func countIndent(s string) int {
 			//        ab
 			//         a       b
 			indent += tabSize - (indent & (tabSize - 1))
+		case '\f':
+			// a form feed resets the column count
+			indent = 0
 		default:
 			panic(py.ExceptionNewf(py.IndentationError, "unexpected indent"))
 		}
@@ -433,7 +434,7 @@ func (x *yyLex) Lex(yylval *yySymType) (ret int) {
 			}
 		case readIndent:
 			// Read the initial indent and get rid of it
-			trimmed := strings.TrimLeft(x.line, " \t")
+			trimmed := strings.TrimLeft(x.line, " \t\f")
 			removed := len(x.line) - len(trimmed)
 			x.currentIndent = x.line[:removed]
 			x.pos.ColOffset += removed
@@ -477,8 +478,8 @@ func (x *yyLex) Lex(yylval *yySymType) (ret int) {
 				return x.dequeue()
 			}
 		case parseTokens:
-			// Skip white space
-			trimmed := strings.TrimLeft(x.line, " \t")
+			// Skip white space (form feed is white space between tokens too)
+			trimmed := strings.TrimLeft(x.line, " \t\f")
 			x.pos.ColOffset += len(x.line) - len(trimmed)
 			x.line = trimmed
 
